@@ -356,6 +356,26 @@ def probe_class(spec, x, entry):
     return ''
 
 
+def localise_live(spec, p, q, entry, like):
+    """(sub-spec, probe) of the innermost member of the two live objects p and q that behaves differently on its own
+    (members of a reconfigured type can not be rebuilt from a sub-spec with the same history), else None"""
+    np_, nq = dict(nodes(p)), dict(nodes(q))
+    for path in sorted(np_, key=lambda s_: -s_.count('/')):
+        if not path or path not in nq:
+            continue
+        try:
+            sub = spec_at(tuple(spec), path)
+            xs = probes(sub, entry, False)
+            if isinstance(spec, Reconf):
+                xs = xs + probes(spec_at(spec.old, path), entry, False)
+        except Exception:
+            continue
+        for sx in xs:
+            if equivalent_on(core.Part(), sub, np_[path], nq[path], entry, sx, like):
+                return sub, sx
+    return None
+
+
 def equivalence(part, spec, mode, only_case=None, builder=None, name=None):
     tname = name or sstr(spec)
     smode = mode + ('-after-reconfiguration' if isinstance(spec, Reconf) else '')
@@ -424,7 +444,12 @@ def equivalence(part, spec, mode, only_case=None, builder=None, name=None):
                                 return True
                         return False
                     sub = localise_spec(pspec, fails) if builder is None else pspec
-                    cls = probe_class(sub, hitprobe.get(sub, x) if sub is not pspec else x, entry)
+                    hx = hitprobe.get(sub, x) if sub is not pspec else x
+                    if isinstance(pspec, Reconf) and sub is pspec:
+                        live = localise_live(pspec, pp, qq, entry, like)
+                        if live:
+                            sub, hx = live
+                    cls = probe_class(sub, hx, entry)
                     part.violation(f'C03:{smode}:{sub[0] if builder is None else type(p).__name__}:{res[0]}:{res[1]}{cls}',
                                    {'check': mode, 'spec': T.tojson(spec), 'special': name, 'reconf': reconf_json(spec), 'role': role, 'entry': entry,
                                     'x': V.enc(x)},
